@@ -12,6 +12,7 @@ white-listed part of package `strings`); both are exercised on every run by exec
 generated definitions in the driver against the real functions.
 -/
 import CM.Generated.Fn
+import CM.Props.C02
 import CM.Model.Lookup
 namespace CM.Tie.FnC02
 open CM.Go CM.Lookup
@@ -127,5 +128,59 @@ theorem C02_tie_fn_SubjectQualifiesForCert (subj : Str) :
   rw [trimSpace_ne_nil, hasPrefix_dot, hasSuffix_dot, hasPrefix_stardot, containsAny_forbidden, hs,
     strings_Contains_single]
   simp [bne]
+
+/-! ### the handshake model's own copy of the function -/
+
+theorem hs_isSpace_eq (c : Char) : CM.Handshake.isSpace c = CM.Lookup.isSpace c := by
+  unfold CM.Handshake.isSpace CM.Lookup.isSpace
+  have e : ∀ d : Char, (decide (c = d)) = decide (c.toNat = d.toNat) := by
+    intro d; apply decide_eq_decide.mpr; exact Char.toNat_inj.symm
+  simp only [e]
+  simp
+
+theorem any_not_space (s : Str) : s.any (fun c => !CM.Lookup.isSpace c) = !(s.all CM.Handshake.isSpace) := by
+  induction s with
+  | nil => rfl
+  | cons a t ih => simp only [List.any_cons, List.all_cons, ih, hs_isSpace_eq]; cases CM.Lookup.isSpace a <;> simp
+
+theorem all_not_forbidden (s : Str) :
+    s.all (fun c => !CM.Lookup.forbidden.contains c) = !(s.any (fun c => CM.Handshake.forbidden.contains c)) := by
+  have hf : CM.Handshake.forbidden = CM.Lookup.forbidden := rfl
+  rw [hf]
+  induction s with
+  | nil => rfl
+  | cons a t ih => simp only [List.any_cons, List.all_cons, ih]; cases CM.Lookup.forbidden.contains a <;> simp
+
+/-- C02's theorems are stated about `Handshake.qualifies`, a second hand-written copy of the function: it is
+the same function as `Lookup.qualifies` — and hence as the translated `SubjectQualifiesForCert` -/
+theorem C02_tie_fn_handshake_qualifies (s : Str) :
+    CM.Gen.Fn.SubjectQualifiesForCert s = CM.Handshake.qualifies s := by
+  rw [C02_tie_fn_SubjectQualifiesForCert]
+  unfold CM.Lookup.qualifies CM.Handshake.qualifies CM.Handshake.startsWith CM.Handshake.endsWithDot
+  have h1 := any_not_space s
+  have h2 : (s.head? != some '.') = !(['.'].isPrefixOf s) := by
+    cases s with
+    | nil => rfl
+    | cons a t => simp [List.isPrefixOf, bne]; rw [beq_comm_char]
+  have h3 : (s.getLast? != some '.') = !(decide (s.getLast? = some '.')) := by
+    by_cases h : s.getLast? = some '.' <;> simp [bne, h]
+  have h4 : (s.take 2 == ['*', '.']) = (['*', '.'].isPrefixOf s) := by
+    match s with
+    | [] => rfl
+    | [a] => simp [List.isPrefixOf]
+    | a :: b :: r => simp [List.isPrefixOf]; rw [beq_comm_char a, beq_comm_char b]
+  have h5 := all_not_forbidden s
+  have h6 : (s == ['*']) = decide (s = ['*']) := by
+    by_cases h : s = ['*'] <;> simp [h]
+  rw [h1, h2, h3, h4, h5, h6]
+
+/-! ### the property theorem, about the printed definition -/
+
+/-- **C02_qualifies, of the code as printed**: the definition translated from `SubjectQualifiesForCert` on this
+run accepts a subject iff it is not malformed (blank, leading / trailing dot, misplaced `*`, forbidden character). -/
+theorem C02_fn_SubjectQualifiesForCert_exactly (s : Str) :
+    CM.Gen.Fn.SubjectQualifiesForCert s = true ↔ ¬ CM.Props.C02.Malformed s := by
+  rw [C02_tie_fn_handshake_qualifies]
+  exact CM.Props.C02.C02_qualifies s
 
 end CM.Tie.FnC02
